@@ -49,7 +49,7 @@ def plan(tier, seed):
 
 def features(script):
     f = {"guarded_ut": 0, "ends": 0, "moves": 0, "uts": set(), "loops": 0}
-    ut_names = {"u", "v", "k1", "k2", "ytmp", "acc", "kinv", "u2", "v2", "<state>y", "<p>u", "<state>w"}
+    ut_names = {"u", "v", "k1", "k2", "ytmp", "acc", "kinv", "ua", "va", "<state>za", "u2", "v2", "<state>y", "<p>u", "<state>w"}
 
     def walk(ops, guarded):
         for op in ops:
@@ -198,7 +198,8 @@ def run_shard(shard, rec):
         return
     rng = random.Random(shard["seed"])
     for i in range(shard["count"]):
-        g = ftn.FGen(rng, memory_bias=True, two_types=rng.random() < 0.4, max_ops=12)
+        g = ftn.FGen(rng, memory_bias=True, two_types=rng.random() < 0.4, max_ops=12,
+                     struct_type=rng.random() < 0.3)
         script = g.script()
         ok = check_script(script, rec, shard["valgrind_every"] and i % shard["valgrind_every"] == 0)
         f = features(script)
